@@ -596,6 +596,16 @@ def class_pairs():
                                    ("element of a literal", "int[]", "string s = {1, 2}[0];", "int s = {1, 2}[0];")]:
         good = (al % ("int[]", good_s)) if good_s is not None else (al % ("int[]", ""))
         P.append(("an array literal's type taken for any type", pos, al % (rt, bad_s), good))
+    # inside a generic class only a value of type T is a T (T may stand for string, or for a subclass of its bound)
+    tp = ("class Foo { public constructor() -> Foo = default; }\nclass Sub extends Foo { public constructor() -> Sub = default; }\n"
+          "class Box<T%s> { public T v; public constructor(T v) -> Box<T> { this.v = v; return this; }\n"
+          "  public function m(T other) -> T { %s return this.v; } }\nfunction main() -> void { Box<%s> b = new Box<%s>(%s); echo(\"ok\"); }")
+    for pos, bound, arg, val, bad_s, good_s in [("local initialiser, unbounded", "", "string", "\"a\"", "T t = new Foo();", "T t = other;"),
+                                                 ("field assignment, unbounded", "", "string", "\"a\"", "this.v = new Foo();", "this.v = other;"),
+                                                 ("return, unbounded", "", "string", "\"a\"", "return new Foo();", "return other;"),
+                                                 ("local initialiser, bounded by the value's class", " extends Foo", "Sub", "new Sub()", "T t = new Foo();", "T t = other;"),
+                                                 ("field assignment, bounded", " extends Foo", "Sub", "new Sub()", "this.v = new Foo();", "this.v = other;")]:
+        P.append(("a class value where a type parameter is expected", pos, tp % (bound, bad_s, arg, arg, val), tp % (bound, good_s, arg, arg, val)))
     return P
 
 
